@@ -89,6 +89,7 @@ class Model:
                 # locals renamed since the rules were confirmed are renamed back (an alpha-conversion; see sa/alpha.py); explaining variables
                 # added since are substituted back, after which a second renaming pass may apply
                 tab = self.locals_table.get(name, {})
+                self.conditionals_merged += alpha.merge_conditional_assignments(self.modules[name])          # (also before the temporaries are looked at: the merged name may be one)
                 for _ in range(2):
                     for key, mapping in alpha.canonicalise(self.modules[name], tab):
                         self.alpha_applied.append("%s.%s: %s" % (name, key, ", ".join("%s->%s" % kv for kv in sorted(mapping.items()))))
